@@ -260,6 +260,15 @@ def whole_run_cases(rng, n, modes, workdir, oc, label="whole-run"):
                 elif r < 0.7:
                     del dmg[p]
         res = run_tree(P, dmg, new, os.path.join(workdir, "run"))
+        if mode == "cut" and isinstance(res.get("out"), dict):
+            # property-level judgement of the same runs (C13): on a prefix of the pristine ecc file an undamaged file is never written back altered
+            for p_, c_ in tree.items():
+                o_ = res["out"].get(p_)
+                if dmg.get(p_) == c_ and o_ is not None and o_ != c_:
+                    oc.violations.append({"input": {"params": P.describe(), "tree": {k: v.hex() for k, v in tree.items()}, "cut_at": len(new),
+                                                    "ecc_len": len(data)},
+                                          "impl": {"exit": res["rc"], "stats": res["stats"], "written": o_.hex()[:400]},
+                                          "what": "ecc file cut at offset %d: the undamaged file %s was written back altered" % (len(new), p_)})
         if "request" in res and len(res["request"]) < 600000:
             lines.append(res["request"])
             impl.append(res["reply"])
